@@ -366,6 +366,10 @@ def file_check(case):
     data = np.concatenate([ints.T, np.zeros((ns, 1), dtype=np.int16)], axis=1)
     sites = list(zip(neuropixel.trace_header(1)["shank"].astype(int).tolist(), neuropixel.trace_header(1)["row"].astype(int).tolist(),
                      neuropixel.trace_header(1)["col"].astype(int).tolist()))
+    # the folder name is the user's: band names and dots in it (odd variants) say nothing about the file
+    if variant % 2:
+        d = os.path.join(d, "session_001.lf.extraction", "raw.ap.lf_data")
+        os.makedirs(d, exist_ok=True)
     fbin = synth.write_recording(d, "det_g0_t0.imec0.ap", data, synth.meta_items("3B2", sites, ns, gains=gains, encoding="geom" if variant % 2 else "shank"))
     if suffix == "cbin":
         sr0 = spikeglx.Reader(fbin)
